@@ -138,15 +138,16 @@ type modifyClient interface {
 }
 
 type world struct {
-	o     *Options
-	srv   *server.Server
-	stub  *wire.Stub
-	ss    []*sess
-	max   *ID
-	prim  int // session index, -1 none, -2 closed
-	fold  *ribx.Model
-	fails []mc.Fail
-	gets  int
+	leavingPrim bool // the session of the disconnect being handled was the primary
+	o           *Options
+	srv         *server.Server
+	stub        *wire.Stub
+	ss          []*sess
+	max         *ID
+	prim        int // session index, -1 none, -2 closed
+	fold        *ribx.Model
+	fails       []mc.Fail
+	gets        int
 	// wedged: the probe found the server blocked; nothing that takes server locks may be called any more
 	wedged bool
 }
@@ -345,6 +346,7 @@ func (w *world) step(l Letter, check bool) {
 			return
 		}
 		before := w.snapshot(l.S)
+		w.leavingPrim = w.prim == l.S
 		s.cli.CloseSend()
 		rt.Quiesce()
 		w.drain()
@@ -361,6 +363,7 @@ func (w *world) step(l Letter, check bool) {
 			return
 		}
 		before := w.snapshot(l.S)
+		w.leavingPrim = w.prim == l.S
 		s.st.Abort(l.Code)
 		rt.Quiesce()
 		w.drain()
@@ -716,6 +719,10 @@ func (w *world) afterDisconnect(l Letter, si int, before snap, how string) {
 	if w.o.Checks.Disconnect || w.o.Checks.Protocol {
 		if before.rib != after.rib || before.elec != after.elec {
 			w.bad("C10/disconnect-changed-state/"+diffSnap(before, after), "%s (%s): installed entries / election id changed: %+v -> %+v", l.Name, how, before, after)
+		}
+		// the operations held for the primary go with the primary's session, never with another session's
+		if !w.leavingPrim && before.held != after.held {
+			w.bad("C10/disconnect-of-non-primary-changed-held-operations", "%s (%s): the session that went away was not the primary, but the held operations changed: %s -> %s", l.Name, how, before.held, after.held)
 		}
 		if _, still := w.srv.VerifSessions()[w.ss[si].sid]; still {
 			w.bad("C10/session-not-removed-after-disconnect", "%s (%s): session %s is still in the session table", l.Name, how, w.ss[si].sid)
